@@ -105,6 +105,13 @@ theorem annihilation_cutoff_is_exact {d d' : ℕ} (q : ℕ) (hd : q + 1 ≤ d) (
       = if h : (r : ℕ) < d then (PW.Props.C11.ann d).mulVec (fun c => ψ c) ⟨r, h⟩ else 0 :=
   PW.Truncation.annihilation_truncation_exact q hd hdd ψ hψ r
 
+/-- **the phase-shift cutoff `q + 1` is exact** -/
+theorem phase_shift_cutoff_is_exact {d d' : ℕ} (q : ℕ) (hd : q + 1 ≤ d) (hdd : d ≤ d') (φ : ℝ) (ψ : ℕ → ℂ)
+    (hψ : ∀ n, q < n → ψ n = 0) (r : Fin d') :
+    (PW.Truncation.phaseOp d' φ).mulVec (fun c => ψ c) r
+      = if h : (r : ℕ) < d then (PW.Truncation.phaseOp d φ).mulVec (fun c => ψ c) ⟨r, h⟩ else 0 :=
+  PW.Truncation.phase_truncation_exact q hd hdd φ ψ hψ r
+
 end PW.Props.C10
 
 #print axioms PW.Props.C10.padding_is_zero
@@ -121,3 +128,4 @@ end PW.Props.C10
 #print axioms PW.Props.C10.beam_splitter_cutoff_is_exact
 #print axioms PW.Props.C10.creation_cutoff_is_exact
 #print axioms PW.Props.C10.annihilation_cutoff_is_exact
+#print axioms PW.Props.C10.phase_shift_cutoff_is_exact
